@@ -63,6 +63,37 @@ pub fn eval(e: &XExpr, ns: &Ns, rt: &Rt) -> (r: RuntimeResult<EvaluatedValue>) e
 pub fn vx_panic<X>() -> (r: X) requires false { unimplemented!() }
 macro_rules! unreachable { () => { vx_panic() } }
 pub struct Ns;
+impl Ns {
+    #[verifier::external_body]
+    pub fn eval_func_with_values(&self, func: &Func, args: Vec<EvaluatedValue>, rt: Rt, tail_available: bool) -> (r: RuntimeResult<TailedEvalResult>)
+        ensures !tail_available ==> (r matches Ok(t) ==> t == TailedEvalResult::Value(apply(*func, args@))),
+    { unimplemented!() }
+}
+impl TailedEvalResult {
+    /// panics on a tail call
+    #[verifier::external_body]
+    pub fn unwrap_value(self) -> (r: EvaluatedValue)
+        requires self is Value,
+        ensures r == self->Value_0,
+    { unimplemented!() }
+}
+/// the generator whose elements are the keys of update_from_keys, and its iterator (finite)
+pub struct XGenerator { pub e: Ghost<Seq<XResult<Val>>> }
+pub struct GenIter { pub r: Ghost<Seq<XResult<Val>>> }
+impl XGenerator {
+    pub open spec fn elems(&self) -> Seq<XResult<Val>> { self.e@ }
+    #[verifier::external_body]
+    pub fn iter(&self, ns: &Ns, rt: Rt) -> (r: GenIter) ensures r.rest() == self.elems() { unimplemented!() }
+}
+impl GenIter {
+    pub open spec fn rest(&self) -> Seq<XResult<Val>> { self.r@ }
+    #[verifier::external_body]
+    pub fn next(&mut self) -> (r: Option<XResult<Val>>)
+        ensures
+            old(self).rest().len() == 0 ==> r is None && final(self).rest() == old(self).rest(),
+            old(self).rest().len() > 0 ==> r == Some(old(self).rest()[0]) && final(self).rest() == old(self).rest().skip(1),
+    { unimplemented!() }
+}
 pub struct ManagedXValue;
 impl ManagedXValue {
     #[verifier::external_body]
@@ -116,7 +147,8 @@ pub assume_specification<T> [<[T]>::swap] (s: &mut [T], a: usize, b: usize)
     ensures final(s)@ == old(s)@.update(a as int, old(s)@[b as int]).update(b as int, old(s)@[a as int]);
 /// `vec![x]`
 pub fn vx_vec1<X>(x: X) -> (r: Vec<X>) ensures r@ == seq![x] { let mut v = Vec::new(); v.push(x); v }
-macro_rules! vec { ($x:expr) => { vx_vec1($x) } }
+pub fn vx_vec2<X>(x: X, y: X) -> (r: Vec<X>) ensures r@ == seq![x, y] { let mut v = Vec::new(); v.push(x); v.push(y); v }
+macro_rules! vec { ($x:expr) => { vx_vec1($x) }; ($x:expr, $y:expr) => { vx_vec2($x, $y) } }
 
 
 // ------------------------------------------------------------------ specification vocabulary
@@ -482,6 +514,35 @@ proof fn lemma_added(a: Table<Val>, hf: XValue, ef: XValue, m: Table<Val>, len: 
             assert(keys(m2[h]@)[q] == keys(m[h]@)[q]);
         }
     }
+}
+
+// ------------------------------------------------------------------ update_from_keys: the left fold of the single-key update
+/// a mapping value with the receiver's functions and the given table / counter
+spec fn with_table(s: XMapping<Val>, m: Table<Val>, len: usize) -> XMapping<Val> {
+    XMapping { inner: HashMap { m: Ghost(m) }, len, hash_func: s.hash_func, eq_func: s.eq_func }
+}
+/// the value update_from_keys computes for a key at a location: on_occupied(key, stored value) / on_empty(key)
+spec fn ufk_value(m: Table<Val>, loc: KeyLocation, item: Val, fe: Func, fo: Func) -> EvaluatedValue {
+    match loc {
+        KeyLocation::Found((h, i)) => apply(fo, seq![Ok(item), Ok(m[h]@[i as int].1)]),
+        _ => apply(fe, seq![Ok(item)]),
+    }
+}
+/// one key: located in s0, its value computed and stored there, nothing else changed
+spec fn ufk_step(s0: XMapping<Val>, m1: Table<Val>, len1: usize, item: Val, fe: Func, fo: Func) -> bool {
+    exists|loc: KeyLocation| #[trigger] loc_valid(s0.inner@, loc)
+        && locate_post(s0, item, Ok::<Result<KeyLocation, ErrV>, RuntimeViolation>(Ok(loc)))
+        && (ufk_value(s0.inner@, loc, item, fe, fo) matches Ok(v) && stored(s0.inner@, s0.len, m1, len1, loc, item, v))
+}
+/// the first n keys, in order: `st` lists the tables / counters before, between and after the single-key updates
+spec fn ufk_chain(s: XMapping<Val>, items: Seq<XResult<Val>>, n: int, st: Seq<(Table<Val>, usize)>, fe: Func, fo: Func) -> bool {
+    &&& st.len() == n + 1 && st[0] == (s.inner@, s.len)
+    &&& forall|j: int| 0 <= j < n ==> ((#[trigger] items[j]) matches Ok(Ok(item))
+            && ufk_step(with_table(s, st[j].0, st[j].1), st[j + 1].0, st[j + 1].1, item, fe, fo))
+}
+/// the table m / counter len result from updating the first n keys, in order
+spec fn ufk_run(s: XMapping<Val>, items: Seq<XResult<Val>>, n: int, m: Table<Val>, len: usize, fe: Func, fo: Func) -> bool {
+    exists|st: Seq<(Table<Val>, usize)>| #[trigger] ufk_chain(s, items, n, st, fe, fo) && st[n] == (m, len)
 }
 
 // @@INCLUDE stdx@@
